@@ -103,6 +103,9 @@ func (s msgServer) AddToCustodians(goCtx context.Context, msg *types.MsgAddToCus
 
 	if record.CustodyCustodians == nil {
 		record.CustodyCustodians = new(types.CustodyCustodianList)
+	}
+
+	if record.CustodyCustodians.Addresses == nil {
 		record.CustodyCustodians.Addresses = map[string]bool{}
 	}
 
@@ -362,6 +365,9 @@ func (s msgServer) AddToWhiteList(goCtx context.Context, msg *types.MsgAddToCust
 
 	if record.CustodyWhiteList == nil {
 		record.CustodyWhiteList = new(types.CustodyWhiteList)
+	}
+
+	if record.CustodyWhiteList.Addresses == nil {
 		record.CustodyWhiteList.Addresses = map[string]bool{}
 	}
 
@@ -462,6 +468,9 @@ func (s msgServer) AddToLimits(goCtx context.Context, msg *types.MsgAddToCustody
 
 	if record.CustodyLimits == nil {
 		record.CustodyLimits = new(types.CustodyLimits)
+	}
+
+	if record.CustodyLimits.Limits == nil {
 		record.CustodyLimits.Limits = map[string]*types.CustodyLimit{}
 	}
 
